@@ -11,14 +11,18 @@ package blobpacked
 
 import (
 	"archive/zip"
+	"bytes"
 	"context"
+	"encoding/json"
 	"hash"
 	"io"
+	"time"
 
 	"perkeep.org/internal/vmodel"
 	"perkeep.org/internal/vrt"
 	"perkeep.org/pkg/blob"
 	"perkeep.org/pkg/schema"
+	"perkeep.org/pkg/sorted"
 )
 
 type vCrash struct{}
@@ -28,36 +32,133 @@ var (
 	vZipSeen  [][]byte
 )
 
+// vZipRefDesc: zip refs in creation order ascend or (vZipRefDesc) descend, so that the enumeration
+// order of the large store is not always the part order.
+var vZipRefDesc bool
+
+func vZipRefOf(i int) blob.Ref {
+	if vZipRefDesc {
+		return blob.VerifSmallRef(byte(230 - i))
+	}
+	return blob.VerifSmallRef(byte(200 + i))
+}
+
 // vRefFromBytes: a collision-free model hash for zip blobs (same bytes, same ref).
 func vRefFromBytes(b []byte) blob.Ref {
 	for i, z := range vZipSeen {
 		if vSame(z, b) {
-			return blob.VerifSmallRef(byte(200 + i))
+			return vZipRefOf(i)
 		}
 	}
 	vZipSeen = append(vZipSeen, append([]byte(nil), b...))
-	return blob.VerifSmallRef(byte(200 + len(vZipSeen) - 1))
+	return vZipRefOf(len(vZipSeen) - 1)
+}
+
+// The model zip container. Writing: every entry is a 3-byte opaque header followed by the stored
+// bytes, the central directory is a 3-byte trailer. What a real zip says about itself (entry
+// names, data offsets, sizes, the JSON manifest) is kept in a registry keyed by the zip's bytes:
+// reading a blob with exactly these bytes gives that description back, any other blob is not a zip.
+type vZipEnt struct {
+	name      string
+	off, size int64
+}
+
+type vZipDesc struct {
+	bytes []byte
+	ents  []vZipEnt
+	mf    Manifest
+}
+
+type vZipFile struct {
+	f    *zip.File
+	desc *vZipDesc
+	ent  int
+}
+
+var (
+	vZipCur   *vZipDesc
+	vZips     []*vZipDesc
+	vZipFiles []vZipFile
+	vManiCur  *vZipDesc
+)
+
+func vZipEndEntry() {
+	if n := len(vZipCur.ents); n > 0 {
+		vZipCur.ents[n-1].size = vZipUnder.(*countWriter).n - vZipCur.ents[n-1].off
+	}
 }
 
 func vZipEntry(name string) (io.Writer, error) {
+	vZipEndEntry()
 	vZipUnder.Write([]byte{'P', 'K', byte('0' + len(name)%10)}) // model of a local file header
+	vZipCur.ents = append(vZipCur.ents, vZipEnt{name: name, off: vZipUnder.(*countWriter).n})
 	return vZipUnder, nil
 }
 
+func vZipInfo(f *zip.File) (*vZipDesc, int) {
+	for _, zf := range vZipFiles {
+		if zf.f == f {
+			return zf.desc, zf.ent
+		}
+	}
+	panic("verif: unknown zip.File")
+}
+
+func vZipNewReader(r io.ReaderAt, size int64) (*zip.Reader, error) {
+	buf := make([]byte, size)
+	if _, err := r.ReadAt(buf, 0); err != nil && err != io.EOF {
+		return nil, err
+	}
+	for _, d := range vZips {
+		if vSame(d.bytes, buf) {
+			zr := &zip.Reader{}
+			for i, e := range d.ents {
+				f := &zip.File{FileHeader: zip.FileHeader{Name: e.name, UncompressedSize64: uint64(e.size)}}
+				zr.File = append(zr.File, f)
+				vZipFiles = append(vZipFiles, vZipFile{f, d, i})
+			}
+			return zr, nil
+		}
+	}
+	return nil, zip.ErrFormat
+}
+
 func vZipStubs() {
-	vZipSeen = nil
-	vrt.Stub("archive/zip.NewWriter", func(w io.Writer) *zip.Writer { vZipUnder = w; return &zip.Writer{} })
+	vZipSeen, vZips, vZipFiles, vZipCur, vManiCur, vZipRefDesc = nil, nil, nil, nil, nil, false
+	vrt.Stub("archive/zip.NewWriter", func(w io.Writer) *zip.Writer {
+		vZipUnder, vZipCur = w, &vZipDesc{}
+		return &zip.Writer{}
+	})
 	vrt.Stub("(*archive/zip.Writer).CreateHeader", func(zw *zip.Writer, fh *zip.FileHeader) (io.Writer, error) { return vZipEntry(fh.Name) })
 	vrt.Stub("(*archive/zip.Writer).Create", func(zw *zip.Writer, name string) (io.Writer, error) { return vZipEntry(name) })
 	vrt.Stub("(*archive/zip.Writer).Flush", func(zw *zip.Writer) error { return nil })
 	vrt.Stub("(*archive/zip.Writer).Close", func(zw *zip.Writer) error {
+		vZipEndEntry()
 		vZipUnder.Write([]byte("END")) // model of the central directory
+		vZipCur.bytes = append([]byte(nil), vZipUnder.(*countWriter).w.(*bytes.Buffer).Bytes()...)
+		vZips = append(vZips, vZipCur)
 		return nil
 	})
 	vrt.Stub("encoding/json.MarshalIndent", func(v any, prefix, indent string) ([]byte, error) {
 		mf := v.(Manifest) // the model manifest carries what makes real manifests differ: part index and blob count
+		vZipCur.mf = mf
 		return []byte{'{', 'm', byte('0' + mf.WholePartIndex), byte('0' + len(mf.DataBlobs)), '}'}, nil
 	})
+	vrt.Stub("archive/zip.NewReader", vZipNewReader)
+	vrt.Stub("(*archive/zip.File).DataOffset", func(f *zip.File) (int64, error) {
+		d, i := vZipInfo(f)
+		return d.ents[i].off, nil
+	})
+	vrt.Stub("(*archive/zip.File).Open", func(f *zip.File) (io.ReadCloser, error) {
+		vManiCur, _ = vZipInfo(f)
+		return io.NopCloser(bytes.NewReader(nil)), nil
+	})
+	vrt.Stub("(*encoding/json.Decoder).Decode", func(dec *json.Decoder, v any) error {
+		*(v.(*Manifest)) = vManiCur.mf
+		return nil
+	})
+	vrt.Stub("time.NewTicker", func(d time.Duration) *time.Ticker { return &time.Ticker{C: make(chan time.Time)} })
+	vrt.Stub("(*time.Ticker).Stop", func(t *time.Ticker) {})
 	vrt.Stub("runtime.Stack", func(buf []byte, all bool) int { return 0 }) // check() logs a stack before it panics
 	vrt.Stub("perkeep.org/pkg/blob.RefFromBytes", vRefFromBytes)
 	vrt.Stub("perkeep.org/pkg/blob.RefFromHash", func(h hash.Hash) blob.Ref { return blob.VerifSmallRef(150) })
@@ -148,6 +249,10 @@ func vCheckPackedState(s *storage, small, large *vmodel.Store, meta *vmodel.KV, 
 		vrt.Assert(len(z) <= zipMax, "every zip produced is within the zip size limit")
 		vrt.Assert(vRefFromBytes(z) == large.Refs[i], "every zip is stored under the ref of its bytes")
 	}
+	vCheckPackedStateReads(s, whole)
+}
+
+func vCheckPackedStateReads(s *storage, whole []byte) {
 	off := vrt.Choice(len(whole) + 1) // whole-file reads from every offset, zip boundaries and the end included
 	rc, size, err := s.OpenWholeRef(blob.VerifSmallRef(150), int64(off))
 	vrt.Assert(err == nil && size == int64(len(whole)), "the whole file is served from the zips with its true size")
@@ -158,12 +263,50 @@ func vCheckPackedState(s *storage, small, large *vmodel.Store, meta *vmodel.KV, 
 	}
 }
 
-func vPackSteps(nchunks int, faultMode bool) {
+// vReindexCheck: rebuild the meta index from the zips alone (the real storage.reindex) and check
+// the client-visible map again; complete says that every zip of the file is known to be in large.
+func vReindexCheck(small, large *vmodel.Store, oldMeta *vmodel.KV, bs []*vBlobState, whole []byte, zipMax int, complete, compareRows bool) {
+	s := &storage{small: small, large: large, meta: oldMeta, forceMaxZipBlobSize: zipMax}
+	s.init()
+	newMeta := &vmodel.KV{}
+	err := s.reindex(context.Background(), func() (sorted.KeyValue, error) { return newMeta, nil })
+	vrt.Assert(err == nil, "rebuilding the meta index from the zips succeeds")
+	if err != nil {
+		return
+	}
+	vrt.Cover("reindexed")
+	vCheckMap(s, bs, "after rebuilding the meta index from the zips")
+	if complete {
+		vCheckPackedStateReads(s, whole)
+	} else {
+		rc, _, err := s.OpenWholeRef(blob.VerifSmallRef(150), 0)
+		if err == nil {
+			got, rerr := vReadAllErr(rc)
+			vrt.Assert(rerr != nil && rerr != io.EOF || vSame(got, whole), "a whole-file read over an incomplete set of zips fails or returns the file, never other bytes")
+		}
+	}
+	if compareRows {
+		vrt.Assert(len(newMeta.Keys) == len(oldMeta.Keys), "the rebuilt meta index has the same rows as the one the pack wrote (count)")
+		for i := 0; i < len(newMeta.Keys) && i < len(oldMeta.Keys); i++ {
+			if newMeta.Keys[i] == blobMetaPrefix+bs[len(bs)-1].ref.String() {
+				// the file schema blob is in every zip of its file: either copy is a correct location
+				vrt.Assert(newMeta.Keys[i] == oldMeta.Keys[i], "the rebuilt meta index has the same rows as the one the pack wrote")
+				continue
+			}
+			vrt.Assert(newMeta.Keys[i] == oldMeta.Keys[i] && newMeta.Vals[i] == oldMeta.Vals[i], "the rebuilt meta index has the same rows as the one the pack wrote")
+		}
+	}
+}
+
+func vPackSteps(nchunks int, faultMode, reindex bool) {
 	vrt.Schedules(2)
 	vZipStubs()
 	small, large, meta, bs, fileRef, whole := vPackWorld(nchunks)
 	s := &storage{small: small, large: large, meta: meta}
 	s.init()
+	if reindex {
+		vZipRefDesc = vrt.Choice(2) == 1
+	}
 	zipMax := 1 << 20
 	if vrt.Choice(2) == 1 {
 		zipMax = vZipMaxFor() // multi-zip
@@ -216,6 +359,11 @@ func vPackSteps(nchunks int, faultMode bool) {
 	s2 := &storage{small: small, large: large, meta: meta, forceMaxZipBlobSize: zipMax}
 	s2.init()
 	vCheckMap(s2, bs, "after a pack (crash/fault at any step, restart)")
+	if reindex {
+		// recovery: the zips alone rebuild the meta index, whatever step the pack reached
+		vReindexCheck(small, large, meta, bs, whole, zipMax, !hit, !hit)
+		return
+	}
 	if !hit || (!crashed && err == nil) {
 		if !(hit && faultMode) { // a failed loose-blob removal is tolerated by design (logged)
 			vCheckPackedState(s2, small, large, meta, bs, whole, zipMax)
@@ -233,6 +381,42 @@ func vPackSteps(nchunks int, faultMode bool) {
 	}
 }
 
-func VK04cPackCrash1() { vPackSteps(1, false) }
-func VK04cPackCrash2() { vPackSteps(2, false) }
-func VK04cPackFault2() { vPackSteps(2, true) }
+func VK04cPackCrash1() { vPackSteps(1, false, false) }
+func VK04cPackCrash2() { vPackSteps(2, false, false) }
+func VK04cPackFault2() { vPackSteps(2, true, false) }
+func VK04dReindex2()   { vPackSteps(2, false, true) }
+
+// VK04dReindexDups: the pack of a file stops before its final whole-file row (the row's write
+// fails), the same content is then uploaded under another file name and packed again (new zips
+// for the same parts: duplicates), and the meta index is rebuilt from the zips.
+func VK04dReindexDups() {
+	vrt.Schedules(2)
+	vZipStubs()
+	small, large, meta, bs, fileRef, whole := vPackWorld(2)
+	file2 := blob.VerifSmallRef(31)
+	const body2 = "{g}"
+	desc := schema.VerifSchemaByBody[vFileBody]
+	schema.VerifSchemaByBody[body2] = schema.VerifNewBlob(file2, schema.VerifBlobDesc{Type: "file", Parts: desc.VerifParts(), FileName: "x"})
+	bs = append(bs, &vBlobState{ref: file2, data: []byte(body2), inSmall: true})
+	small.Put(file2, []byte(body2))
+	vZipRefDesc = vrt.Choice(2) == 1
+	zipMax := 1 << 20
+	if vrt.Choice(2) == 1 {
+		zipMax = vZipMaxFor()
+	}
+	s := &storage{small: small, large: large, meta: meta, forceMaxZipBlobSize: zipMax}
+	s.init()
+	meta.Fault = func(op string) bool { return op == "set" } // only the final w:<wholeref> row is written with Set
+	_, err := vRunPack(s, fileRef)
+	meta.Fault = nil
+	vrt.Assert(err != nil, "a pack whose final row cannot be written reports the failure")
+	s2 := &storage{small: small, large: large, meta: meta, forceMaxZipBlobSize: zipMax}
+	s2.init()
+	vCheckMap(s2, bs, "after a pack without its final row")
+	_, err = vRunPack(s2, file2)
+	vrt.Assert(err == nil, "packing the same content under another name succeeds")
+	vCheckMap(s2, bs, "after packing the same content under another name")
+	vCheckPackedStateReads(s2, whole)
+	vReindexCheck(small, large, meta, bs, whole, zipMax, true, false)
+	vrt.Cover("done")
+}
